@@ -159,6 +159,14 @@ func (o *storeHandler) changeHandler(id string, before, after interface{}) {
 		if rid == "" {
 			return
 		}
+	} else if o.def != nil {
+		// A missing resource is served as the default value
+		if before == nil {
+			before = o.def
+		}
+		if after == nil {
+			after = o.def
+		}
 	}
 
 	r, err := o.s.Resource(rid)
